@@ -227,7 +227,10 @@ impl Callback for SimpleStats {
                 tx_value += o.out.value;
             }
             // Calculate and save biggest value transaction
-            if tx_value > self.tx_biggest_value.0 {
+            // (an all-zero txid means that no transaction has been recorded yet)
+            if tx_value > self.tx_biggest_value.0
+                || self.tx_biggest_value.2 == sha256d::Hash::all_zeros()
+            {
                 self.tx_biggest_value = (tx_value, block_height, tx.hash);
             }
 
